@@ -12,6 +12,8 @@
  *   lcomp <delta> <input>        same for LZ4
  *   gz <level> <delta> <input>   carquet_gzip_compress / _decompress (no reference: zlib is the codec)
  *   zs <level> <delta> <input>   carquet_zstd_compress / _decompress
+ *   big <codec> <z|p|r> <n> <period>   compress a driver-generated input of n bytes at the bound (no hex on the line)
+ *                                -> "OK len=<clen> head=<first 8 bytes> bound=<b> rt=<0|1> lib=<0|1>"
  *   slen <stream>                carquet_snappy_get_uncompressed_length -> "OK n" | "ERR code"
  *   hist <codec> <k> <x0>..<xk-1> <steps>   a HISTORY of calls on this thread.  codec: snappy|lz4|gzip|zstd.
  *                                steps, comma separated:  c<i>:<level>:<cap>  compress input i into exactly <cap>
@@ -86,12 +88,32 @@ static void dec_case(int is_lz4) {
     free(d2); free(sb); free(db);
 }
 
+static void comp_core(int codec, int level, long delta, uint8_t* x, size_t n, void* xb, int head_only);
 static void comp_case(int codec /*0 snappy 1 lz4 2 gzip 3 zstd*/, int level, long delta, const char* hex) {
-    size_t n; void* xb;
+    void* xb;
     size_t hn = (hex[0] == '-' && hex[1] == 0) ? 0 : strlen(hex) / 2;
     uint8_t* x = exact(hn, &xb);
     for (size_t i = 0; i < hn; i++) x[i] = (uint8_t)(h_hexval(hex[2*i]) * 16 + h_hexval(hex[2*i+1]));
-    n = hn;
+    comp_core(codec, level, delta, x, hn, xb, 0);
+}
+/* big <codec> <kind> <n> <period>: the input is generated here (z zeros, p short period, r xorshift noise of
+ * that period) so that multi-megabyte inputs need no hex; prints only the first 8 output bytes (head=) */
+static void big_case(void) {
+    const char* cn = h_tok[1];
+    int codec = !strcmp(cn, "snappy") ? 0 : !strcmp(cn, "lz4") ? 1 : !strcmp(cn, "gzip") ? 2 : !strcmp(cn, "zstd") ? 3 : -1;
+    char kind = h_tok[2][0]; size_t n = (size_t)strtoull(h_tok[3], NULL, 10); size_t period = (size_t)strtoull(h_tok[4], NULL, 10);
+    if (codec < 0) { puts("ERR bad-big"); return; }
+    if (!period) period = 1;
+    void* xb; uint8_t* x = exact(n, &xb);
+    uint64_t r = 0x9E3779B97F4A7C15ull ^ (uint64_t)period;
+    if (kind == 'z') memset(x, 0, n);
+    else for (size_t i = 0; i < n; i++) {
+        if (i < period) { if (kind == 'r') { r ^= r << 13; r ^= r >> 7; r ^= r << 17; x[i] = (uint8_t)(r >> 24); } else x[i] = (uint8_t)(i * 131 + 7); }
+        else x[i] = x[i - period];
+    }
+    comp_core(codec, 3, 0, x, n, xb, 1);
+}
+static void comp_core(int codec, int level, long delta, uint8_t* x, size_t n, void* xb, int head_only) {
     size_t bound = codec == 0 ? carquet_snappy_compress_bound(n) : codec == 1 ? carquet_lz4_compress_bound(n)
                  : codec == 2 ? carquet_gzip_compress_bound(n) : carquet_zstd_compress_bound(n);
     long capl = (long)bound + delta; if (capl < 0) capl = 0;
@@ -120,7 +142,8 @@ static void comp_case(int codec /*0 snappy 1 lz4 2 gzip 3 zstd*/, int level, lon
         free(d2);
     }
     printf("OK ");
-    if (codec <= 1) h_puthex(s, clen); else printf("len=%zu", clen);
+    if (head_only) { printf("len=%zu head=", clen); h_puthex(s, clen < 8 ? clen : 8); }
+    else if (codec <= 1) h_puthex(s, clen); else printf("len=%zu", clen);
     printf(" bound=%zu rt=%d lib=%d\n", bound, rt, lib);
     free(xb); free(cb); free(sb); free(db);
 }
@@ -300,6 +323,7 @@ int main(void) {
         else if (!strcmp(h_tok[0], "lcomp") && h_ntok == 3) comp_case(1, 0, atol(h_tok[1]), h_tok[2]);
         else if (!strcmp(h_tok[0], "gz") && h_ntok == 4) comp_case(2, atoi(h_tok[1]), atol(h_tok[2]), h_tok[3]);
         else if (!strcmp(h_tok[0], "zs") && h_ntok == 4) comp_case(3, atoi(h_tok[1]), atol(h_tok[2]), h_tok[3]);
+        else if (!strcmp(h_tok[0], "big") && h_ntok == 5) big_case();
         else if (!strcmp(h_tok[0], "hist") && h_ntok >= 5) hist_case();
         else if (!strcmp(h_tok[0], "pages") && h_ntok == 5) pages_case();
         else if (!strcmp(h_tok[0], "slen") && h_ntok == 2) {
